@@ -23,7 +23,7 @@ RULE = ('seeded small worlds (1-4 segments, <=3 channels, contiguous / interleav
         'oracle. evaluations = worlds, sub_evaluations = crash points. distinct = segment shape sequence; '
         'non-trivial = some cut fell strictly inside raw data that holds values')
 EXPECTED_PROBES = ['cut:lead-in', 'cut:metadata', 'cut:chunk-boundary', 'cut:mid-row-interleaved', 'cut:mid-value',
-                   'cut:string-offsets', 'cut:string-bytes', 'marker:contiguous', 'marker:interleaved', 'daqmx-world']
+                   'cut:string-offsets', 'cut:string-bytes', 'marker:contiguous', 'marker:interleaved', 'daqmx-world', 'writer-made-file']
 ASSUMPTIONS = ['crash model = prefix truncation at a byte offset (what the statement names); holes and reordered '
                'writes are not modelled']
 
@@ -43,6 +43,19 @@ def opts(tier):
 
 
 def generate(rng, tier):
+    if rng.random() < 0.15:
+        # the real TdmsWriter as producer: its own sequence of write() calls is what the crash tears
+        from .. import wgen
+        prog = wgen.gen_program(rng, max_calls=4)
+        for sess in prog['sessions']:
+            for call in sess:
+                for ob in call:
+                    d = ob.get('data')
+                    if d and len(wgen.make_len(d)) > 40:
+                        ob['data'] = wgen.gen_channel_data(rng, {k: v for k, v in d.items() if k in ('form', 'dtype', 'unit', 'cls')})
+                        if len(wgen.make_len(ob['data'])) > 40:
+                            ob['data'] = {'form': 'nd', 'dtype': '<i4', 'hex': '01000000', 'view': False}
+        return {'writer': prog, 'spec': None, 'raw_ts': rng.random() < 0.5, 'cuts': None, 'win_seed': rng.getrandbits(32)}
     o = opts(tier)
     if rng.random() < 0.6:
         o.props = False
@@ -193,7 +206,114 @@ def check_cut(w, c, raw_ts, st, res, win_rng, real=False):
     return out
 
 
+def execute_writer(case):
+    """Writer-made file: reference = what the same reader returns for the complete file; segment extents from the
+    independent strict parser; then every cut."""
+    import io
+    from .. import wexec, parser
+    from .c08 import prog_sig
+    res = Result()
+    prog = case['writer']
+    res.sig = ['writer', prog_sig(prog)]
+    res.probe('writer-made-file')
+    raw_ts = case['raw_ts']
+    with store(record=False) as st:
+        try:
+            tr = wexec.run_program(st, prog, 'bytesio', False, name='prod.tdms')
+            segs = parser.parse_file(tr.data)
+            full = lib.TdmsFile.read(io.BytesIO(tr.data), raw_timestamps=raw_ts)
+        except Exception as exc:
+            res.skipped_ops += 1          # C07 / C08 judge the writer; nothing to cut here
+            res.ev('source-unusable', type(exc).__name__)
+            return res
+        data = tr.data
+        ref = {}
+        for g in full.groups():
+            for c in g.channels():
+                try:
+                    ref[c.path] = ops.norm(c[:])
+                except Exception:
+                    ref[c.path] = None
+        counts = []
+        for sg in segs:
+            counts.append({o['path']: o['count'] for o in sg['objects'] if o['index'] == 'full'})
+        cuts = case['cuts'] if case['cuts'] is not None else list(range(4, len(data) + 1))
+        for c in cuts:
+            res.sub_evals += 1
+            res.steps += 1
+            inside = any(sg['data_pos'] < c < sg['end'] for sg in segs)
+            boundary = any(c == sg['data_pos'] and sg['end'] > sg['data_pos'] for sg in segs)
+            if inside:
+                res.nontrivial = True
+            guaranteed = {}
+            for sg, cn in zip(segs, counts):
+                if sg['end'] <= c:
+                    for p_, n_ in cn.items():
+                        guaranteed[p_] = guaranteed.get(p_, 0) + n_
+            vs = []
+            got = {}
+            for mode in ('eager', 'lazy'):
+                try:
+                    src = io.BytesIO(data[:c])
+                    tf = lib.TdmsFile.read(src, raw_timestamps=raw_ts) if mode == 'eager' else lib.TdmsFile.open(src, raw_timestamps=raw_ts)
+                except Exception as exc:
+                    vs.append(V('C06.%s-raises' % mode, 'writer-made file, cut %d: %s: %s' % (c, type(exc).__name__, exc),
+                                exc=type(exc).__name__))
+                    continue
+                try:
+                    cur = {}
+                    for g in tf.groups():
+                        for ch in g.channels():
+                            r, exc, eo = ops.try_op(lambda: ops.norm(ch[:]))
+                            if exc:
+                                vs.append(V('C06.%s-raises' % mode, 'writer-made file, cut %d: %s[:] %s: %s' % (c, ch.path, exc, eo), exc=exc))
+                                continue
+                            cur[ch.path] = r
+                            n = _lazy.full_len(r)
+                            full_r = ref.get(ch.path)
+                            res.compared += 1
+                            if full_r is None:
+                                continue
+                            if len(ch) != n:
+                                vs.append(V('C06.len', 'writer-made file, cut %d: %s %s len()=%d, %d values' % (c, mode, ch.path, len(ch), n)))
+                            if n > _lazy.full_len(full_r):
+                                vs.append(V('C06.invents-data', 'writer-made file, cut %d: %s has %d values, complete file %d' % (
+                                    c, ch.path, n, _lazy.full_len(full_r))))
+                            elif n and r != _lazy.take_norm(full_r, range(n)):
+                                vs.append(V('C06.not-a-prefix', 'writer-made file, cut %d: %s %s is not a prefix of the complete file' % (
+                                    c, mode, ch.path)))
+                            if n < guaranteed.get(ch.path, 0):
+                                vs.append(V('C06.loses-complete-segments', 'writer-made file, cut %d: %s has %d values, %d guaranteed' % (
+                                    c, ch.path, n, guaranteed[ch.path])))
+                    for p_, n_ in guaranteed.items():
+                        if n_ and p_ not in cur:
+                            vs.append(V('C06.loses-complete-segments', 'writer-made file, cut %d: %s missing (%d guaranteed)' % (c, p_, n_)))
+                    got[mode] = cur
+                    flag = bool(tf.file_status.incomplete_final_segment)
+                    if not boundary and flag != inside:
+                        vs.append(V('C06.status', 'writer-made file, cut %d: %s incomplete_final_segment=%s, expected %s' % (c, mode, flag, inside),
+                                    expected=inside))
+                finally:
+                    if mode == 'lazy':
+                        tf.close()
+            if 'eager' in got and 'lazy' in got:
+                for p_, r in got['eager'].items():
+                    l_ = got['lazy'].get(p_)
+                    if l_ is not None and l_ != r and not (_lazy.full_len(l_) == 0 and _lazy.full_len(r) == 0):
+                        vs.append(V('C06.lazy-eager-differ', 'writer-made file, cut %d: %s' % (c, p_)))
+            for v in vs:
+                v.sig['kind'] = 'writer-made'
+            res.violations += vs
+            res.ev(c, [v.tag for v in vs])
+            if len(res.violations) > 3:
+                break
+        res.fault('crash', len(cuts))
+    return res
+
+
 def execute(case):
+    if case.get('writer') is not None:
+        return execute_writer(case)
     res = Result()
     spec = case['spec']
     w = build(spec)
@@ -233,6 +353,14 @@ def execute(case):
 
 def shrink_candidates(case):
     from ..shrink import spec_candidates, list_candidates
+    if case.get('writer') is not None:
+        if case['cuts'] is None:
+            return
+        for cand in list_candidates(case['cuts'], keep_min=1):
+            c = dict(case)
+            c['cuts'] = cand
+            yield c
+        return
     if case['cuts'] is None:
         # first find a single failing cut
         w = build(case['spec'])
@@ -255,6 +383,9 @@ def shrink_candidates(case):
 
 
 def sample(case):
+    if case.get('writer') is not None:
+        from .c08 import prog_sig
+        return {'writer_program': prog_sig(case['writer']), 'cuts': 'every offset 4..len', 'raw_timestamps': case['raw_ts']}
     w = build(case['spec'])
     from .c04 import _sig
     return {'segments': _sig(case['spec']), 'file_bytes': len(w.data), 'cuts': 'every offset 4..%d' % len(w.data),
